@@ -14,15 +14,19 @@ int main(int argc, char **argv) {
     static const size_t NS_T[] = {1,2,3,4,5,6,7,8,9,10,11,12,13,14,15,16,17,18,19,20,21,22,23,24,25,26,27,28,29,30,31,32,33,34,35,36,37,38,39,40,63,64,65,255,4096};
     static const size_t NS_Q[] = {1,2,3,4,7,8,9,15,16,17,31,32,33,40,63,64,65,255,4096};
     const size_t *NS = thorough ? NS_T : NS_Q; int nn = thorough ? sizeof NS_T / sizeof NS_T[0] : sizeof NS_Q / sizeof NS_Q[0];
-    static const int VALS[3] = {0, 0xFF, 0x5A};
+    static const unsigned VALS[3][7] = { {0, 0xFF, 0x5A, 0x80, 0x7F, 0xFE, 0x01}, {0, 0xFFFF, 0x5A5A, 0x8001, 0x00FF, 0xFF00, 0x7FFE}, {0, 0xFFFFFFFFu, 0x5A5A5A5Au, 0x80000001u, 0x000000FFu, 0xFF000000u, 0x7FFFFFFEu} };
     for (int k = 0; k < 8; k++) for (int st = 0; st < 3; st++) {
         long cases = 0, bad_cases = 0, surv_total = 0, bytes_total = 0, outside_total = 0; size_t wn = 0, woff = 0; int wval = 0; long wsurv = 0;
         int ew = (k == 2 || k == 4) ? 2 : (k == 3 || k == 5) ? 4 : 1;
-        for (int ni = 0; ni < nn; ni++) for (size_t off = 0; off < 8; off += 1) for (int vi = 0; vi < 3; vi++) {
-            size_t n = NS[ni]; int val = VALS[vi];
+        /* the main sweep (7 fill values), then for the byte-valued memset_s / the control every fill value 0..255 on a few shapes */
+        for (int pass = 0; pass < 2; pass++)
+        for (int ni = 0; ni < (pass ? 3 : nn); ni++) for (size_t off = 0; off < 8; off += (pass ? 3 : 1)) for (int vi = 0; vi < (pass ? 256 : 7); vi++) {
+            static const size_t NS_V[3] = {8, 24, 41};
+            size_t n = pass ? NS_V[ni] : NS[ni]; int val = pass ? vi : (int)VALS[ew == 1 ? 0 : ew == 2 ? 1 : 2][vi];
+            if (pass && !(k == 0 || k == 7)) continue;
             if (off % ew) continue; if (n % ew) n += ew - n % ew;
             if ((k == 1 || k == 4 || k == 5 || k == 6) && val) continue;            /* zeroing functions */
-            int fill = val; if (ew == 2) fill = val | (val << 8); if (ew == 4) fill = val | (val << 8) | (val << 16) | ((unsigned)val << 24);
+            int fill = val;
             run_deep(g_victims[k][st], n, off, fill);
             long s, o; probe(fill, ew, &s, &o);
             cases++; bytes_total += (long)n; surv_total += s; outside_total += o;
